@@ -342,6 +342,8 @@ def run_query(pid, q, tier, keep=False, verbose=False):
                 f["desc"] = "loop exceeds the bound derived from the input size: " + f["desc"]
         real = [f for f in fails if f["kind"] in ("property",)]
         infra = [f for f in fails if f["kind"] in ("unwind", "nobody", "model")]
+        if any(f["kind"] == "nobody" for f in infra):
+            real = []     # a body-less callee invalidates everything downstream of it
         if infra and not real:
             res["status"] = "harness-error"
             res["error"] = "; ".join("%s %s" % (f["kind"], f["name"]) for f in infra)[:1500]
